@@ -46,7 +46,8 @@ NoHash == 99            \* "no hash line"; not a content value
 \* configuration file at all (s.present): the user can delete one and put it back; the artifact of an entity without
 \* configuration is just a file gopki has no business with.
 Children(s, e) == {c \in s.present : s.par[c] = e}
-IsLeaf(s, e)   == Children(s, e) = {}
+\* nobody names e as issuer - whether that configuration is present right now or not (it may come back)
+IsLeaf(s, e)   == \A c \in Ents : s.par[c] # e
 \* a configuration names an issuer that no configuration defines: Open refuses the directory (C18)
 Dangling(s)    == \E e \in s.present : s.par[e] # "" /\ s.par[e] \notin s.present
 
